@@ -379,7 +379,26 @@ fn parse_all(ctx: &mut Ctx, bytes: &[u8]) {
   let mut oks = 0;
   let mut rs: Vec<Option<bool>> = Vec::new();
   let calls: [(&str, Box<dyn Fn() -> Result<bool, String> + '_>); 3] = [
-    ("from_slice", Box::new(|| guarded(|| SourceMap::from_slice(bytes).is_ok()))),
+    (
+      "from_slice",
+      Box::new(|| {
+        guarded(|| match SourceMap::from_slice(bytes) {
+          Ok(m) => {
+            // a map that parsed is then used: decoded, serialised again, attached to a source
+            let n = m.decoded_mappings().count();
+            let _ = m.clone().to_json();
+            let src = rspack_sources::SourceMapSource::new(rspack_sources::WithoutOriginalOptions { value: "ab\ncd", name: "p.js", source_map: m });
+            for columns in [true, false] {
+              let _ = crate::observe::stream(&src, columns, false);
+              let _ = rspack_sources::Source::map(&rspack_sources::ConcatSource::new([rspack_sources::SourceExt::boxed(src.clone())]), &rspack_sources::MapOptions::new(columns));
+            }
+            let _ = n;
+            true
+          }
+          Err(_) => false,
+        })
+      }),
+    ),
     ("from_reader", Box::new(|| guarded(|| SourceMap::from_reader(bytes).is_ok()))),
     (
       "from_json",
